@@ -157,6 +157,9 @@ class Check(PropertyCheck):
 
     def generate(self, rng, n, tier):
         for i in range(n):
+            if i in (9, 29):
+                yield Scenario(["new", f"mark manyjobs {rng.randint(0, 10**6)}"], {"kind": "manyjobs", "count": 1})
+                continue
             if i == 5:
                 yield Scenario(["new", "mark mergedframes 0"], {"kind": "mergedframes", "count": 1})
                 continue
@@ -319,6 +322,34 @@ class Check(PropertyCheck):
         res = []
         if line.startswith("mark realgif"):
             return self.real_gif_oracle(int(line.split()[2]))
+        if line.startswith("mark manyjobs"):
+            # charts of instances with dozens of jobs: every bar still has the colour of ITS job's legend entry and of no other
+            import warnings
+            import matplotlib.pyplot as plt
+            import jsl as _jsl
+            from impl import build_instance
+            from impl_ext import read_chart
+            from job_shop_lib.dispatching.rules import DispatchingRuleSolver
+            from job_shop_lib.visualization import plot_gantt_chart
+            r_ = random.Random(int(line.split()[2]))
+            J_ = r_.choice([22, 23, 26, 31, 39, 44, 50, 57])
+            jobs_ = [[([m_], r_.randint(1, 4)) for m_ in r_.sample(range(3), 3)] for _ in range(J_)]
+            inst_ = build_instance(jobs_)
+            sched_ = DispatchingRuleSolver("most_work_remaining").solve(inst_)
+            with warnings.catch_warnings():
+                warnings.simplefilter("ignore")
+                fig_, ax_ = plot_gantt_chart(sched_)
+                bars_, legend_, _, _ = read_chart(ax_)
+                plt.close(fig_)
+            want_ = sorted(f"{1 + 10 * x.machine_id}:{x.start_time}:{x.end_time - x.start_time}:{x.job_id}" for ms in sched_.schedule for x in ms)
+            out_ = []
+            if sorted(bars_) != want_:
+                odd = [b for b in bars_ if b not in want_][:3]
+                out_.append(("bars", f"chart of a schedule with {J_} jobs: bars {odd} do not match the scheduled operations (a bar reads "
+                             f"`ambiguous` when two legend entries share its colour)"))
+            if sorted(legend_) != list(range(J_)):
+                out_.append(("legend", f"chart of a schedule with {J_} jobs: legend jobs {sorted(legend_)[:8]}..."))
+            return out_
         if line.startswith("mark mergedframes"):
             # zero-duration operations draw no visible bar: consecutive frames are the same picture, and the GIF writer (Pillow, through
             # imageio) merges identical consecutive frames - the GIF has fewer frames than the history has operations (a recorded finding)
